@@ -754,9 +754,9 @@ func main() {
 		return
 	}
 	res := lib.NewResult("C07", f)
-	n := 5000
+	n := 4000
 	if f.Thorough() {
-		n = 100000
+		n = 80000
 	}
 	const batch = 4000
 	distinct := lib.NewDistinct()
